@@ -20,7 +20,10 @@ func satisfiesFormula(p *Prog) (*qf, *ssa.Function, error) {
 	if fn == nil {
 		return nil, nil, fmt.Errorf("unresolved anchor: spdxexp.Satisfies")
 	}
-	qz := &quantizer{p: p, elemVar: map[ssa.Value]string{}}
+	// helpers are seen through; the functions the expected shape names stay opaque
+	qz := &quantizer{p: p, elemVar: map[ssa.Value]string{}, stop: map[string]bool{
+		"parse": true, "expand": true, "stringsToNodes": true, "sortAndDedup": true,
+		"licensesAreCompatible": true, "licenseRefsAreCompatible": true}}
 	f := qz.funcFormulaWith(fn, 0, nil)
 	if f == nil {
 		return nil, fn, fmt.Errorf("no formula")
